@@ -1064,8 +1064,8 @@ func splitTopSemi(s string) []string {
 func parseOnCall(rest string) (*OnCall, error) {
 	rest = strings.TrimSpace(strings.TrimSuffix(strings.TrimSpace(rest), ":"))
 	kind, r2, _ := strings.Cut(rest, " ")
-	if kind != "call" && kind != "go" && kind != "defer" && kind != "index" {
-		return nil, fmt.Errorf("on: want 'on call|go|index NAME(...)'")
+	if kind != "call" && kind != "go" && kind != "defer" && kind != "index" && kind != "send" && kind != "recv" {
+		return nil, fmt.Errorf("on: want 'on call|go|index|send|recv NAME(...)'")
 	}
 	r2 = strings.TrimSpace(r2)
 	oc := &OnCall{}
@@ -1092,6 +1092,10 @@ func parseOnCall(rest string) (*OnCall, error) {
 		}
 	}
 	oc.Callee = r2
+	if kind == "send" || kind == "recv" {
+		// on send CH / on recv CH: every send to / receive from channel variable CH (also inside select)
+		oc.Callee = kind + ":" + r2
+	}
 	if kind == "index" {
 		// on index S(k): every read or write S[k] of slice variable S
 		oc.Callee = "index:" + r2
